@@ -610,6 +610,9 @@ class C04(Plugin):
         code = op.get('code') or {}
         if code.get('text'):
             newtoks = set(uniq_tokens(code['text']) or ())
+            # a source text put to a primitive field (Constant.value = "b'b'") is stored as a str and written as its repr:
+            # any string token that contains the text of the new code counts as coming from it
+            newtoks |= {t for t in cnt if t[:1] in '\'"rRbBuUfF' and code['text'] in t}
         if op['k'] == 'put_docstr':
             newtoks |= {t for t in u_post if t[:1] in '\'"rRbBuU' and t not in pre_set}
             newtoks |= {t for t in cnt if t[:1] in '\'"rRbBuU'}
